@@ -53,26 +53,28 @@ type node struct {
 
 // Result of exploring one scenario.
 type Result struct {
-	Scenario     string         `json:"scenario"`
-	Config       string         `json:"config"`
-	States       int            `json:"states"`
-	Transitions  int            `json:"transitions"`
-	Executions   int            `json:"executions"`
-	Outcomes     map[string]int `json:"outcomes"`
-	Observations int            `json:"distinct_observations"`
-	ObsSamples   []string       `json:"observation_samples,omitempty"`
-	MaxDepth     int            `json:"max_depth"`
-	Exhaustive   bool           `json:"exhaustive"`
-	Bound        int            `json:"preemption_bound"`
-	BudgetHit    bool           `json:"budget_hit"`
-	SCCs         int            `json:"sccs,omitempty"`
-	BottomSCCs   int            `json:"bottom_sccs,omitempty"`
-	Counters     map[string]int `json:"counters,omitempty"`
-	Violation    *Violation     `json:"violation,omitempty"`
-	Suspects     []string       `json:"suspected_merge_artefacts,omitempty"`
-	WallS        float64        `json:"wall_s"`
-	SampleTrace  []string       `json:"sample_trace,omitempty"`
-	InfraError   string         `json:"infra_error,omitempty"`
+	Scenario       string         `json:"scenario"`
+	Config         string         `json:"config"`
+	States         int            `json:"states"`
+	Transitions    int            `json:"transitions"`
+	Executions     int            `json:"executions"`
+	Outcomes       map[string]int `json:"outcomes"`
+	Observations   int            `json:"distinct_observations"`
+	ObsSamples     []string       `json:"observation_samples,omitempty"`
+	MaxDepth       int            `json:"max_depth"`
+	Exhaustive     bool           `json:"exhaustive"`
+	Bound          int            `json:"preemption_bound"`
+	CompletedBound int            `json:"completed_preemption_bound"`
+	BoundRuns      []string       `json:"bounded_runs,omitempty"`
+	BudgetHit      bool           `json:"budget_hit"`
+	SCCs           int            `json:"sccs,omitempty"`
+	BottomSCCs     int            `json:"bottom_sccs,omitempty"`
+	Counters       map[string]int `json:"counters,omitempty"`
+	Violation      *Violation     `json:"violation,omitempty"`
+	Suspects       []string       `json:"suspected_merge_artefacts,omitempty"`
+	WallS          float64        `json:"wall_s"`
+	SampleTrace    []string       `json:"sample_trace,omitempty"`
+	InfraError     string         `json:"infra_error,omitempty"`
 }
 
 type Violation struct {
@@ -86,21 +88,22 @@ type Violation struct {
 }
 
 type Explorer struct {
-	Sc       *Scenario
-	Bound    int // preemption bound, -1 = unbounded
-	Budget   time.Duration
-	Graph    bool // record edges and check bottom SCCs
-	MaxSt    int  // cap on states (0 = none)
-	visited  map[uint64]int32
-	cost     []int16
-	flags    []uint8
-	edges    [][2]int32
-	nodes    []*node // representative node per state
-	res      Result
-	obs      map[string]int
-	start    time.Time
-	lastPath []int32
+	Sc          *Scenario
+	Bound       int // preemption bound, -1 = unbounded
+	Budget      time.Duration
+	Graph       bool // record edges and check bottom SCCs
+	MaxSt       int  // cap on states (0 = none)
+	visited     map[uint64]int32
+	cost        []int16
+	flags       []uint8
+	edges       [][2]int32
+	nodes       []*node // representative node per state
+	res         Result
+	obs         map[string]int
+	start       time.Time
+	lastPath    []int32
 	countPruned bool
+	Skipped     int // alternatives not taken because of the preemption bound
 	// CollectProj: record Project() of every state reached (cross-check)
 	CollectProj bool
 	Proj        map[string]bool
@@ -369,6 +372,7 @@ func (e *Explorer) execute(n *node, stack []*node) []*node {
 		for c := len(en) - 1; c >= 1; c-- {
 			cost := cur.cost + preemptCost(w, en, c)
 			if e.Bound >= 0 && int(cost) > e.Bound {
+				e.Skipped++
 				continue
 			}
 			stack = append(stack, &node{parent: cur, choice: int32(c), depth: cur.depth + 1, cost: cost, state: -1})
